@@ -47,8 +47,11 @@ impl OpaqueTripleSet { pub uninterp spec fn view(&self) -> Set<Triple>; }
     ensures final(set).view() == Set::<Triple>::empty() { unimplemented!() }
 #[verifier::external_body] #[derive(Clone, Copy)] pub struct TxId { _p: () }      // E1: grafeo_common::types::TxId, only passed through
 // `buffer.buffers.remove(&tx_id).unwrap_or_default()`: the operations buffered for tx_id, in the order they were issued (no contract needed:
-// commit_tx is specified relative to whatever sequence it takes out)
-#[verifier::external_body] fn tx_take(buf: &mut OpaqueTxBuffer, tx_id: TxId) -> (r: Vec<PendingOp>) { unimplemented!() }
+// commit_tx is specified relative to that sequence)
+impl OpaqueTxBuffer { pub uninterp spec fn pending(&self, tx: TxId) -> Seq<PendingOp>; }      // what the transaction buffered, in issue order
+#[verifier::external_body] fn tx_take(buf: &mut OpaqueTxBuffer, tx_id: TxId) -> (r: Vec<PendingOp>) ensures r@ == old(buf).pending(tx_id) { unimplemented!() }
+// R37 helper (verified): all of a, then all of b
+fn vec_concat<T>(a: Vec<T>, b: Vec<T>) -> (r: Vec<T>) ensures r@ == a@ + b@ { let mut a = a; let mut b = b; a.append(&mut b); a }
 #[verifier::external_body] fn tx_buffer_new() -> (r: OpaqueTxBuffer) { unimplemented!() }
 // std: Arc::clone copies the pointer - the clone of an Arc IS that Arc (used for Vec<Arc<_>>::clone)
 #[verifier::external_body] pub proof fn axiom_arc_clone()
@@ -589,10 +592,11 @@ r__''' % (fld, name))
     f.resub('E3', r'let mut buffer = self\.tx_buffer\.write\(\);\s*buffer\.buffers\.remove\(&tx_id\)\.unwrap_or_default\(\)', 'tx_take(&mut self.tx_buffer, tx_id)')
     f.requires('wf', 'old(self).store_wf()')
     f.ensures('store_invariant', 'final(self).store_wf()')
-    f.ensures('applied_in_order', 'exists|ops: Seq<PendingOp>| r == ops.len() && final(self).triples.view() == apply_ops(old(self).triples.view(), ops)')
+    f.R36().R37()
+    f.ensures('applied_in_issue_order', 'r == old(self).tx_buffer.pending(tx_id).len() && final(self).triples.view() == apply_ops(old(self).triples.view(), old(self).tx_buffer.pending(tx_id))')
     f.before('let count = ops.len();', 'let ghost ops0 = ops@; let ghost V0 = self.triples.view();')
-    L = f.loop(0).kind('for').iter('it')
-    L.invariants(('wf', 'self.store_wf()'), ('seq', 'it.seq() == ops0'),
+    L = f.loop('for op in').kind('for').iter('it')
+    L.invariants(('wf', 'self.store_wf()'), ('seq', 'it.seq() == ops0 && ops0 == old(self).tx_buffer.pending(tx_id)'),
                  ('applied_prefix', 'self.triples.view() == apply_ops(V0, ops0.take(it.index@ as int))'))
     L.before('proof { assert(ops0.take(0) =~= Seq::<PendingOp>::empty()); }')
     L.body_end('proof { let s = ops0.take(it.index@ + 1); assert(s.drop_last() =~= ops0.take(it.index@ as int)); assert(s.last() == ops0[it.index@ as int]); }')
